@@ -182,6 +182,10 @@ pub struct GenCtx<'a> {
     pub families_by_type: Vec<Vec<usize>>,
     /// families that contain a state pump (used only by the deep_pump mode)
     pub pump_families: Vec<usize>,
+    /// hash of an op's key -> pool index (to find the family of an op inside a scenario)
+    pub key_ix: std::collections::HashMap<u64, u32>,
+    /// family id -> usable, valid, not-big members
+    pub family_members: std::collections::HashMap<u32, Vec<u32>>,
 }
 
 impl<'a> GenCtx<'a> {
@@ -250,8 +254,65 @@ impl<'a> GenCtx<'a> {
         let pump_families: Vec<usize> = by_type.remove(&b'n').unwrap_or_default();
         let families_by_type: Vec<Vec<usize>> = by_type.into_values().collect();
         let small_families: Vec<Vec<u32>> = families.iter().filter(|f| f.iter().all(|i| !pool.ops[*i as usize].op.is_big())).cloned().collect();
-        GenCtx { pool, refs, usable, by_group, poison_by_group, cheap, kinds, by_kind, quick_by_kind, tl_slot_ops, families, small_families, families_by_type, pump_families }
+        let mut key_ix = std::collections::HashMap::new();
+        let mut family_members: std::collections::HashMap<u32, Vec<u32>> = std::collections::HashMap::new();
+        for (i, p) in pool.ops.iter().enumerate() {
+            if refs[i].status != "ok" || refs[i].outcome.is_none() {
+                continue;
+            }
+            let mut h = H64::new();
+            h.bytes(p.op.key().as_bytes());
+            key_ix.insert(h.0, i as u32);
+            if p.family > 0 && p.poison.is_none() && !p.op.is_big() {
+                family_members.entry(p.family).or_default().push(i as u32);
+            }
+        }
+        GenCtx { pool, refs, usable, by_group, poison_by_group, cheap, kinds, by_kind, quick_by_kind, tl_slot_ops, families, small_families, families_by_type, pump_families, key_ix, family_members }
     }
+}
+
+/// Replace ops of a scenario by other members of their families (near-identical arguments).
+/// Used by the cold-world chains: the next process of a chain then asks for the NEIGHBOUR of
+/// what the previous one asked for - what a key that is too coarse would confuse across processes
+/// (seeded change c13-au: a host-wide memo keyed by the candidate list of a lookup, not by the
+/// point). Returns the number of ops replaced.
+pub fn sibling_shift(sc: &mut Scenario, g: &GenCtx, rng: &mut Rng) -> u32 {
+    let mut n = 0;
+    for j in 0..sc.ops.len() {
+        let mut h = H64::new();
+        h.bytes(sc.ops[j].key().as_bytes());
+        let ix = match g.key_ix.get(&h.0) {
+            Some(i) => *i as usize,
+            None => continue,
+        };
+        let p = &g.pool.ops[ix];
+        if p.family == 0 || p.poison.is_some() || !rng.pct(70) {
+            continue;
+        }
+        let members = match g.family_members.get(&p.family) {
+            Some(m) if m.len() >= 2 => m,
+            _ => continue,
+        };
+        // prefer a sibling of the same kind (the neighbour point, not the boundary of its cell)
+        let same_kind: Vec<u32> = members.iter().copied().filter(|m| *m as usize != ix && g.pool.ops[*m as usize].op.kind() == p.op.kind()).collect();
+        let s = if !same_kind.is_empty() && rng.pct(80) {
+            *rng.pick(&same_kind) as usize
+        } else {
+            let o = *rng.pick(members) as usize;
+            if o == ix {
+                continue;
+            }
+            o
+        };
+        if let Some(out) = &g.refs[s].outcome {
+            sc.ops[j] = g.pool.ops[s].op.clone();
+            sc.expected[j] = out.clone();
+            sc.foot[j] = g.refs[s].foot.clone();
+            sc.poison[j] = None;
+            n += 1;
+        }
+    }
+    n
 }
 
 fn weighted(rng: &mut Rng, w: &[u32]) -> usize {
@@ -292,13 +353,15 @@ pub fn generate(g: &GenCtx, seed: u64) -> Scenario {
     // crowd: 17-24 simulated threads, most of them alive (parked) at the same time - state that
     // depends on how many threads exist or have existed
     // (crowd sizes cluster around powers of two: pools, arenas and bitmasks of per-thread objects
-    // have capacities like 16, 32, 64, 128)
+    // have capacities like 16, 32, 64, 128, 256, 512)
     let n_threads = if crowd {
-        match rng.below(20) {
+        match rng.below(24) {
             0..=11 => rng.range(17, 24) as usize,
             12..=14 => rng.range(30, 35) as usize,
             15..=17 => rng.range(62, 67) as usize,
-            _ => rng.range(126, 131) as usize,
+            18..=20 => rng.range(126, 131) as usize,
+            21..=22 => rng.range(254, 259) as usize,
+            _ => rng.range(510, 515) as usize,
         }
     } else {
         1 + weighted(&mut rng, &[15, 30, 25, 15, 8, 7])
